@@ -1,6 +1,8 @@
 //! verif_core: property-based checks for cozy-chess (see /verif/DESIGN.md).
 pub mod bridge;
 pub mod gen;
+pub mod gen2;
 pub mod props;
 pub mod refmodel;
 pub mod runner;
+pub mod keymodel;
